@@ -1,5 +1,10 @@
 // ---- src/builder/bdd/builder.rs: trait BddBuilder (contract + default methods) and the blanket
 //      impl of BottomUpBuilder for every BddBuilder ----
+/// p is the diagram of the clause c
+pub open spec fn clause_diagram(p: BddPtr, c: Seq<Literal>) -> bool {
+    forall|env: Env| #[trigger] tr(env) ==> ptr_sem(p, env) == clause_holds(c, env)
+}
+
 pub trait BddBuilder<'a>: BottomUpBuilder<'a, BddPtr<'a>> {
     /// the builder's current variable order (ghost view of the RefCell field; A-cell)
     spec fn order_s(&self) -> VarOrder;
@@ -160,6 +165,70 @@ where
 //%% extract src/builder/bdd/builder.rs :: impl<'a, T> BottomUpBuilder<'a, BddPtr<'a>> for T where T: BddBuilder<'a>, :: fn exists
 //%% @entry
         proof { tr_all(); }
+//%% end
+
+// R-iter-std / R-sort (trusted/cnf_stub.rs): the empty-clause test `cnf.clauses().iter().any(|x| x.is_empty())` and the
+// clause-sorting prologue (`to_vec` + `sort_by` with a comparator built from `max_by` closures) are replaced by stubs
+// with the std semantics; the sort stub returns SOME rearrangement of the clauses, so the comparator -- a heuristic that
+// only decides in which order clauses are conjoined -- is outside the proof and nothing is assumed about it.
+//%% extract src/builder/bdd/builder.rs :: impl<'a, T> BottomUpBuilder<'a, BddPtr<'a>> for T where T: BddBuilder<'a>, :: fn compile_cnf
+//%% @props C05 C01 C02
+//%% @attr #[verifier::loop_isolation(false)]
+//%% @ret r
+//%% @rewrite 1 /cnf\.clauses\(\)\.iter\(\)\.any\(\|x\| x\.is_empty\(\)\)/ => verif_any_empty_clause(cnf.clauses())
+//%% @rewrite 1 /let mut cnf_sorted = cnf\.clauses\(\)\.to_vec\(\);\n        cnf_sorted\.sort_by\(\|c1, c2\| \{.*?\n        \}\);/ => let cnf_sorted = verif_sort_clauses(cnf.clauses());
+//%% @rewrite 1 /for lit_vec in cnf_sorted\.iter\(\) \{/ => for lit_vec in it: cnf_sorted.iter() {
+//%% @rewrite 1 /for lit in lit_vec \{/ => for lit in it2: lit_vec.iter() {
+//%% @entry
+        let ghost cls0 = cnf.cls();
+        let ghost perm = sort_perm(cnf.cls());
+        let ghost inv = sort_inv(cnf.cls());
+        proof {
+            tr_all(); self.consts_ok();
+            // conjunction over the rearranged clauses == conjunction over the clauses, for any rearrangement
+            assert forall|env: Env| #[trigger] tr(env) implies
+                ((perm.len() == cls0.len() && inv.len() == cls0.len()
+                  && (forall|i: int| 0 <= i < cls0.len() ==> 0 <= #[trigger] perm[i] < cls0.len())
+                  && (forall|k: int| 0 <= k < cls0.len() ==> 0 <= #[trigger] inv[k] < cls0.len() && perm[inv[k]] == k))
+                 ==> ((forall|i: int| 0 <= i < cls0.len() ==> clause_holds(cls0[#[trigger] perm[i]]@, env)) == cnf_holds(cls0, env))) by {
+                if perm.len() == cls0.len() && inv.len() == cls0.len()
+                    && (forall|i: int| 0 <= i < cls0.len() ==> 0 <= #[trigger] perm[i] < cls0.len())
+                    && (forall|k: int| 0 <= k < cls0.len() ==> 0 <= #[trigger] inv[k] < cls0.len() && perm[inv[k]] == k) {
+                    if (forall|i: int| 0 <= i < cls0.len() ==> clause_holds(cls0[#[trigger] perm[i]]@, env)) {
+                        assert forall|k: int| 0 <= k < cls0.len() implies clause_holds((#[trigger] cls0[k])@, env) by {
+                            assert(perm[inv[k]] == k);
+                        }
+                    }
+                    if cnf_holds(cls0, env) {
+                        assert forall|i: int| 0 <= i < cls0.len() implies clause_holds(cls0[#[trigger] perm[i]]@, env) by {}
+                    }
+                }
+            }
+        }
+//%% @loop 1 /^for lit_vec in it: cnf_sorted\.iter\(\)$/
+            invariant
+                self.bu_inv(), cvec.len() == it.index@, cnf_sorted.len() == cls0.len(), perm.len() == cls0.len(),
+                forall|i: int, j: int| 0 <= i < cls0.len() && 0 <= j < cls0[i].len() ==> self.lbl_ok((#[trigger] cls0[i][j]).lbl),
+                forall|i: int| 0 <= i < cls0.len() ==> (#[trigger] cls0[i]).len() > 0,
+                forall|i: int| 0 <= i < cnf_sorted.len() ==> 0 <= #[trigger] perm[i] < cls0.len() && cnf_sorted@[i]@ == cls0[perm[i]]@,
+                forall|i: int| 0 <= i < cvec.len() ==> self.ok(#[trigger] cvec@[i]) && self.shape2(cvec@[i]),
+                forall|i: int| #![trigger cvec@[i]] #![trigger perm[i]] 0 <= i < cvec.len() ==> clause_diagram(cvec@[i], cls0[perm[i]]@), // #SEM
+//%% @loopbody 1
+            proof {
+                tr_all();
+                // the clause being compiled is one of the CNF's clauses: non-empty, labels known to the builder
+                let k0 = perm[it.index@ as int];
+                assert(lit_vec@ == cls0[k0]@);
+                assert(cls0[k0].len() > 0);
+                assert forall|j: int| 0 <= j < lit_vec.len() implies self.lbl_ok((#[trigger] lit_vec@[j]).lbl) by { assert(lit_vec@[j] == cls0[k0][j]); }
+            }
+//%% @loop 2 /^for lit in it2: lit_vec\.iter\(\)$/
+                invariant
+                    self.bu_inv(), self.ok(bdd), self.shape2(bdd), lit_vec.len() > 0,
+                    forall|j: int| 0 <= j < lit_vec.len() ==> self.lbl_ok((#[trigger] lit_vec@[j]).lbl),
+                    forall|env: Env| #[trigger] tr(env) ==> bdd.sem(env) == (lit_holds(lit_vec@[0], env) || exists|j: int| 0 <= j < it2.index@ && lit_holds(#[trigger] lit_vec@[j], env)), // #SEM
+//%% @loopbody 2
+                proof { tr_all(); }
 //%% end
 
 // R-scratch: `r.clear_scratch(); bdd.clear_scratch();` reset the per-node memo fields deleted by R-scratch
